@@ -3,7 +3,7 @@
 
 use linfa::dataset::{AsTargets, CountedTargets, Label, Labels};
 use linfa::{Dataset, DatasetBase};
-use ndarray::{Array1, Array2, ArrayBase, Data, Ix1, Ix2, RawData, ShapeBuilder};
+use ndarray::{s, Array1, Array2, ArrayBase, Data, Ix1, Ix2, RawData, ShapeBuilder};
 use serde::{Deserialize, Serialize};
 use std::collections::BTreeMap;
 
@@ -25,12 +25,33 @@ pub struct Model {
     /// the record buffer is column-major (the only hidden state of an owned dataset: produced by
     /// `select(Axis(1), ..)`; decides whether the owned split panics as documented)
     pub colmajor: bool,
+    /// second kind of hidden state: the owned record / target / weight array is a `slice_move` out
+    /// of a larger allocation (PAD_LEAD rows of poison before it, PAD_TRAIL after it; still
+    /// row-major standard layout). Decides what `into_raw_vec`-based code sees.
+    #[serde(default)]
+    pub pad_rec: bool,
+    #[serde(default)]
+    pub pad_tgt: bool,
+    #[serde(default)]
+    pub pad_w: bool,
     pub rec: Vec<Vec<f64>>,
     pub tgt: Vec<Vec<usize>>,
     /// `Some` (length n > 0) iff the dataset carries weights
     pub w: Option<Vec<f32>>,
     pub fnames: Vec<String>,
     pub tnames: Vec<String>,
+}
+
+/// Rows of the allocation in front of / behind a sliced owned array.
+pub const PAD_LEAD: usize = 2;
+pub const PAD_TRAIL: usize = 1;
+/// Poison values filling the part of the allocation outside the array: sample id 99, label 77,
+/// weight 990.5. None of them can be produced by an operation of the alphabet from in-array data.
+pub const POISON_SAMPLE: i64 = 99;
+pub const POISON_LABEL: usize = 77;
+pub const POISON_WEIGHT: f32 = 990.5;
+pub fn poison_tag(j: usize) -> f64 {
+    (100 * POISON_SAMPLE as usize + j) as f64
 }
 
 impl Model {
@@ -48,6 +69,7 @@ impl Model {
         b.push(self.nt as u8);
         b.push(self.t2 as u8 | (self.counted as u8) << 1 | (self.colmajor as u8) << 2 | (self.w.is_some() as u8) << 3);
         b.push(self.n() as u8);
+        b.push(self.pad_rec as u8 | (self.pad_tgt as u8) << 1 | (self.pad_w as u8) << 2);
         for r in &self.rec {
             for &x in r {
                 b.extend_from_slice(&(x as f32).to_bits().to_le_bytes());
@@ -93,6 +115,9 @@ pub fn seed(n: usize, nf: usize, targets: &str, labelling: &str, weights: bool, 
         t2,
         counted: false,
         colmajor: false,
+        pad_rec: false,
+        pad_tgt: false,
+        pad_w: false,
         rec: (0..n).map(|i| (0..nf).map(|j| (100 * (i + 1) + j) as f64).collect()).collect(),
         // second target column: i div 2 mod 3, so that the pairs (col0, col1) are distinct for n <= 6
         tgt: (0..n).map(|i| if nt == 2 { vec![lab(i), (i / 2) % 3] } else { vec![lab(i)] }).collect(),
@@ -213,28 +238,59 @@ pub fn build(m: &Model) -> Live {
             }
         }
         Array2::from_shape_vec((n, m.nf).f(), v).unwrap()
+    } else if m.pad_rec {
+        let mut v: Vec<f64> = Vec::with_capacity((n + PAD_LEAD + PAD_TRAIL) * m.nf);
+        for _ in 0..PAD_LEAD {
+            v.extend((0..m.nf).map(poison_tag));
+        }
+        v.extend(m.rec.iter().flatten().cloned());
+        for _ in 0..PAD_TRAIL {
+            v.extend((0..m.nf).map(poison_tag));
+        }
+        Array2::from_shape_vec((n + PAD_LEAD + PAD_TRAIL, m.nf), v).unwrap().slice_move(s![PAD_LEAD..PAD_LEAD + n, ..])
     } else {
         Array2::from_shape_vec((n, m.nf), m.rec.iter().flatten().cloned().collect()).unwrap()
     };
     let w: Array1<f32> = match &m.w {
+        Some(w) if m.pad_w => {
+            let mut v = vec![POISON_WEIGHT; PAD_LEAD];
+            v.extend(w.iter().cloned());
+            v.extend(vec![POISON_WEIGHT; PAD_TRAIL]);
+            Array1::from(v).slice_move(s![PAD_LEAD..PAD_LEAD + n])
+        }
         Some(w) => Array1::from(w.clone()),
         None => Array1::zeros(0),
     };
-    let flat: Vec<usize> = m.tgt.iter().flatten().cloned().collect();
+    let mut flat: Vec<usize> = m.tgt.iter().flatten().cloned().collect();
+    let tn = if m.pad_tgt {
+        let mut v = vec![POISON_LABEL; PAD_LEAD * m.nt];
+        v.extend(flat.iter().cloned());
+        v.extend(vec![POISON_LABEL; PAD_TRAIL * m.nt]);
+        flat = v;
+        n + PAD_LEAD + PAD_TRAIL
+    } else {
+        n
+    };
     macro_rules! finish {
         ($ds:expr) => {
             $ds.with_weights(w).with_feature_names(m.fnames.clone()).with_target_names(m.tnames.clone())
         };
     }
     if m.t2 {
-        let t = Array2::from_shape_vec((n, m.nt), flat).unwrap();
+        let mut t = Array2::from_shape_vec((tn, m.nt), flat).unwrap();
+        if m.pad_tgt {
+            t = t.slice_move(s![PAD_LEAD..PAD_LEAD + n, ..]);
+        }
         if m.counted {
             Live::C2(finish!(DatasetBase::new(records, CountedTargets::new(t))))
         } else {
             Live::P2(finish!(DatasetBase::new(records, t)))
         }
     } else {
-        let t = Array1::from(flat);
+        let mut t = Array1::from(flat);
+        if m.pad_tgt {
+            t = t.slice_move(s![PAD_LEAD..PAD_LEAD + n]);
+        }
         if m.counted {
             Live::C1(finish!(DatasetBase::new(records, CountedTargets::new(t))))
         } else {
@@ -338,6 +394,9 @@ impl Obs {
             t2: self.t2,
             counted: self.counted,
             colmajor: self.colmajor,
+            pad_rec: false,
+            pad_tgt: false,
+            pad_w: false,
             rec: self.rec.clone(),
             tgt: self.tgt.clone(),
             w: if !self.w.is_empty() && self.w.len() == self.n { Some(self.w.clone()) } else { None },
